@@ -190,6 +190,66 @@ func runC17(r *Report) {
 	}
 
 	// ---- R-C17-2 refusal is inert ------------------------------------------------------------
+	// quota refusals of the connection-code service: the refusing return (under limit exceeded) is
+	// not preceded by a recording action (claim, create, save, update ...) that is not undone
+	for _, s := range sites {
+		pk := ""
+		if s.fn.Pkg != nil {
+			pk = rel(s.fn.Pkg.Pkg.Path())
+		}
+		if !strings.HasPrefix(pk, "internal/cloud/services/conncode") {
+			continue
+		}
+		recording := func(in ssa.Instruction) bool {
+			ci, ok := in.(ssa.CallInstruction)
+			if !ok || !ci.Common().IsInvoke() && CalleeOf(ci).Fn == nil {
+				return false
+			}
+			n := CalleeOf(ci).Name
+			for _, p := range []string{"ClaimForUse", "Create", "Save", "Update", "Activate", "Revoke", "Add", "Append", "Incr", "Mark"} {
+				if strings.HasPrefix(n, p) {
+					return true
+				}
+			}
+			return false
+		}
+		undo := func(in ssa.Instruction) bool {
+			ci, ok := in.(ssa.CallInstruction)
+			if !ok {
+				return false
+			}
+			n := CalleeOf(ci).Name
+			return strings.HasPrefix(n, "Release") || strings.HasPrefix(n, "Delete") || strings.HasPrefix(n, "Remove") || strings.HasPrefix(n, "Rollback") || strings.HasPrefix(n, "rollback")
+		}
+		for _, ret := range Returns(s.fn) {
+			if RetErrKind(ret) == "nil" {
+				continue
+			}
+			exceeded := false
+			for _, ft := range Facts(ret.Block()) {
+				if ft.Cond == ssa.Value(s.cmp) && ft.Pol == (s.cmp.Op == token.GEQ || s.cmp.Op == token.GTR) {
+					exceeded = true
+				}
+			}
+			if !exceeded {
+				continue
+			}
+			bad := token.NoPos
+			Instrs(s.fn, func(in ssa.Instruction) {
+				if !recording(in) || !CanReachBlock(in.Block(), ret.Block()) {
+					return
+				}
+				if reachesFromWithout(in, ret, undo) {
+					bad = in.Pos()
+				}
+			})
+			pos := ret.Pos()
+			if bad != token.NoPos {
+				pos = bad
+			}
+			r.Ob("R-C17-2", pos, bad == token.NoPos, "a quota refusal ("+s.limit+") is not preceded by a recording action that is left in place (a refused request changes no state)", r.P.FuncName(s.fn), "quota-refusal-inert:"+s.limit)
+		}
+	}
 	if cc := r.need("R-C17-2", sessPkg, "SessionManager.CreateConnection"); cc != nil {
 		creates := Calls(cc, false, "CreateStream")
 		for _, ret := range Returns(cc) {
